@@ -39,6 +39,7 @@
   non-vacuity examples.
 -/
 import Ctrmml.Proofs.OptChain
+import Ctrmml.Proofs.OptCount
 namespace Ctrmml.C01
 open Ctrmml Ctrmml.Tree Ctrmml.Expand Ctrmml.Rewrite Tables
 
@@ -367,23 +368,28 @@ Hypotheses: `bm` satisfies the conditions under which `find_match` records a loo
 (`LoopOK`; `findMatch_loopOK` below shows that every match returned by `find_match` with a
 non-zero `loopLength` does), the loop branch is taken, the rewritten track contains no explicit
 `END` event and its `LOOP_BREAK`s have zero duration (true of every song the MML front end and
-the optimiser produce), and the repeat count fits `int16_t` (`repeats = L/len + 1 (+1) < 32768`,
-neighbourhood of defect D2; implied by a track length below 32767).
+the optimiser produce).  The folded length `L` is the matched `loopLength` capped to 254 whole
+repetitions (`capLoopLength`, repair of defect D2: the repeat count `L/len + 1 (+1)` is at most
+255, `C01_fold_count_le_255`; before the repair this theorem needed the hypothesis that the count
+fits `int16_t`); a capped fold is the rewrite without remainder with `k = 254`
+(`LoopWindow.cap`), the repetitions beyond it stay in `post`.
 With `A = src[position, loopPosition)`, `k = L / |A|`, `bp = L % |A|`: `A0 = parse A[0,bp)`,
 `A1 = parse A[bp,|A|)`, `le.param = k + 2` (`k + 1` without remainder). -/
 theorem applyMatch_loop_is_step {song : Song} {m : SAMap} {bm : Match} {subId : Int} {src : List Event}
     (hok : LoopOK song m bm) (hbr : ¬ bm.loopScore < bm.subScore)
-    (hsrc : song.track? bm.trackId = some src) (hne : NoEnd src) (hbz : BrkZero src)
-    (hrep : bm.loopLength / (bm.loopPosition - bm.position) + 2 < 32768) :
+    (hsrc : song.track? bm.trackId = some src) (hne : NoEnd src) (hbz : BrkZero src) :
     ∃ S', applyMatch song m bm subId = .ok (S', m, subId) ∧ StepN song S' ∧
-      S' = setTrack song bm.trackId (foldedTrack src bm.position bm.loopPosition bm.loopLength) := by
+      S' = setTrack song bm.trackId (foldedTrack src bm.position bm.loopPosition
+        (capLoopLength (bm.loopPosition - bm.position) bm.loopLength)) := by
   refine ⟨_, applyMatch_loop_eq hsrc hbr, ?_, rfl⟩
-  have hw := hok.window hsrc hbz
+  have hw := (hok.window hsrc hbz).cap hok.lt
+  have hrep := capLoopLength_rep bm.loopLength (Nat.sub_pos_of_lt hok.lt)
   obtain ⟨p, hp⟩ : ∃ p, p = bm.position := ⟨_, rfl⟩
   obtain ⟨q, hq⟩ : ∃ q, q = bm.loopPosition := ⟨_, rfl⟩
-  obtain ⟨L, hL⟩ : ∃ L, L = bm.loopLength := ⟨_, rfl⟩
+  obtain ⟨L, hL⟩ : ∃ L, L = capLoopLength (bm.loopPosition - bm.position) bm.loopLength := ⟨_, rfl⟩
   have hpq : p < q := by rw [hp, hq]; exact hok.lt
-  rw [← hp, ← hq, ← hL] at hw hrep ⊢
+  rw [← hL] at hw hrep ⊢
+  rw [← hp, ← hq] at hw hrep ⊢
   obtain ⟨pre, hpre⟩ : ∃ pre, pre = src.take p := ⟨_, rfl⟩
   obtain ⟨A, hA⟩ : ∃ A, A = (src.drop p).take (q - p) := ⟨_, rfl⟩
   obtain ⟨post, hpost⟩ : ∃ post, post = src.drop (q + L) := ⟨_, rfl⟩
@@ -472,15 +478,17 @@ theorem pass_loop_is_step {song : Song} {m : SAMap} {subId : Int} {s' : Song} {b
     obtain ⟨len0, hf⟩ := hok.fml
     obtain ⟨src, _, hsrc, _, _⟩ := findMatchLength_spec hf
     obtain ⟨w1, w2, w3⟩ := hwf.track hsrc
-    have hw := hok.window hsrc w2
+    have hw := (hok.window hsrc w2).cap hok.lt
     have hrep := repeats_small hok.lt hw.len w3
-    obtain ⟨S', happ', hstep, hS'⟩ := applyMatch_loop_is_step (subId := subId) hok hl hsrc w1 w2 hrep
+    obtain ⟨S', happ', hstep, hS'⟩ := applyMatch_loop_is_step (subId := subId) hok hl hsrc w1 w2
     rw [happ'] at happ
     simp only [Except.ok.injEq, Prod.mk.injEq] at happ
     obtain ⟨rfl, _, rfl⟩ := happ
     refine ⟨Or.inr hstep, ?_, rfl⟩
     rw [hS']
-    have hL : 3 ≤ best.loopLength := by have := hok.minLen; rw [minLoopScore_eq] at this; exact this
+    have hL : 3 ≤ capLoopLength (best.loopPosition - best.position) best.loopLength := by
+      have := hok.minLen; rw [minLoopScore_eq] at this
+      exact capLoopLength_ge3 (Nat.sub_pos_of_lt hok.lt) this
     obtain ⟨f1, f2, f3⟩ := foldedTrack_wf hok.lt hw.len hL hrep w1 w2
     exact hwf.setTrack hsrc f1 f2 (by omega)
 
@@ -744,17 +752,18 @@ theorem C01_fold_pass_decreases {song : Song} {m : SAMap} {subId : Int} {s' : So
   obtain ⟨len0, hf⟩ := hok.fml
   obtain ⟨src, _, hsrc, _, _⟩ := findMatchLength_spec hf
   obtain ⟨w1, w2, w3⟩ := hwf.track hsrc
-  have hw := hok.window hsrc w2
+  have hw := (hok.window hsrc w2).cap hok.lt
   have hrep := repeats_small hok.lt hw.len w3
+  replace hL3 := capLoopLength_ge3 (Nat.sub_pos_of_lt hok.lt) hL3
   rw [applyMatch_loop_eq hsrc hl] at happ
   simp only [Except.ok.injEq, Prod.mk.injEq] at happ
   rw [← happ.1]
   obtain ⟨p, hp⟩ : ∃ p, p = best.position := ⟨_, rfl⟩
   obtain ⟨q, hq⟩ : ∃ q, q = best.loopPosition := ⟨_, rfl⟩
-  obtain ⟨L, hL⟩ : ∃ L, L = best.loopLength := ⟨_, rfl⟩
+  obtain ⟨L, hL⟩ : ∃ L, L = capLoopLength (best.loopPosition - best.position) best.loopLength := ⟨_, rfl⟩
   have hpq : p < q := by rw [hp, hq]; exact hok.lt
-  rw [← hL] at hL3
-  rw [← hp, ← hq, ← hL] at hw hrep ⊢
+  rw [← hL] at hL3 hw hrep ⊢
+  rw [← hp, ← hq] at hw hrep ⊢
   -- the erased events
   have hBlen : ((src.drop q).take L).length = L := by
     rw [List.length_take, List.length_drop]; have := hw.len; omega
@@ -951,6 +960,133 @@ theorem C01_analyzeTrack_budget (song : Song) (hi : SongI16 song) (m : SAMap) (s
     analyzeTrack song fuel m self evs drum ≠ .error .fuel :=
   analyzeTrack_no_fuel hi m self evs drum hc fuel hf
 
+/-! ## the loop counts the optimiser writes (repair of defect D2) -/
+
+/-- **Every `LOOP_END` the optimiser inserts has a count in 2..255.**  The loop branch of
+`apply_match`, on a match that satisfies the conditions under which `find_match` records a loop
+candidate (`LoopOK`; `findMatch_loopOK`), rewrites the track `src` into a track `t'` all of whose
+events are events of `src` or one of the three inserted events: `LOOP_START`, `LOOP_BREAK` (both with
+parameter 0) and ONE `LOOP_END` whose count `c` satisfies `2 ≤ c ≤ 255` — the domain `[/]<0..255>` of
+the language reference and of the one-byte operand of the MDSDRV loop-finish command.  `c` is
+`foldCount` of the capped length: `L / len + 1`, one more with a break point.  (Before the repair
+`c` was unbounded: 300 repetitions of one note gave `[c]300`, compiled to `fb 2c` = 44 passes.) -/
+theorem C01_fold_count_le_255 {song : Song} {m : SAMap} {bm : Match} {subId : Int} {src : List Event}
+    (hok : LoopOK song m bm) (hbr : ¬ bm.loopScore < bm.subScore)
+    (hsrc : song.track? bm.trackId = some src) :
+    ∃ (c : Nat) (t' : List Event), 2 ≤ c ∧ c ≤ 255 ∧
+      c = foldCount (bm.loopPosition - bm.position) (capLoopLength (bm.loopPosition - bm.position) bm.loopLength) ∧
+      applyMatch song m bm subId = .ok (setTrack song bm.trackId t', m, subId) ∧
+      leEv (c : Int) ∈ t' ∧ ∀ e ∈ t', e ∈ src ∨ e = lsEv ∨ e = lbEv ∨ e = leEv (c : Int) := by
+  obtain ⟨c, hc, h2, h255, hmem, hall⟩ := mem_foldedTrack_cap (src := src) hok.lt hok.pos
+  exact ⟨c, _, h2, h255, hc, applyMatch_loop_eq hsrc hbr, hmem, hall⟩
+
+/-- **A pass keeps every loop count of the song in the domain 0..255** (`SongCounts`): a loop fold
+inserts one `LOOP_END` with a count in 2..255 (`C01_fold_count_le_255`), a subroutine extraction
+moves events and inserts `JUMP`s. -/
+theorem C01_pass_counts {song : Song} {m : SAMap} {subId : Int} {s' : Song} {best : Match} {subId' : Int}
+    (hwf : SongWF song) (hfr : FreshInv song subId) (hval : validAll song = true) (hnext : subId + 1 < 32768)
+    (hc : SongCounts song) (hfb : findBestMatch song m subId = .ok (s', best, subId')) : SongCounts s' := by
+  obtain ⟨_, hwf', _, _⟩ := pass_is_step hwf hfr hval hnext hfb
+  rcases findBestMatch_spec hfb with ⟨_, h1, _⟩ | ⟨hbs, ⟨srcT, srcPos, hfm⟩, m', happ⟩
+  · rw [h1]; exact hc
+  obtain ⟨ht, hp, hss, hlo⟩ := findMatch_spec hwf.nodup hfm
+  obtain ⟨src, hsrc⟩ := findMatch_track hfm
+  rw [← ht] at hsrc
+  have hci : CountOK src := hc _ (mem_of_lookup hsrc)
+  by_cases hl : best.loopScore < best.subScore
+  · have hpos : 0 < best.subScore := by
+      unfold Match.bestScore at hbs
+      rw [if_pos hl] at hbs
+      omega
+    have hso := findMatch_subOK hsrc (by rw [ht]; exact hfm) hpos
+    obtain ⟨hlen, hbal⟩ := subOK_balanced hsrc hso
+    rw [← hp] at hlen hbal
+    have hfresh := hfr.track_none
+    obtain ⟨_, _, hinv⟩ := applyMatch_sub_is_step hwf hl hsrc hfresh
+      (noJump_of_valid hwf hval hfresh hsrc) hlen hbal happ
+    exact songCounts_of_subInv hwf'.nodup hinv hc (countOK_take (countOK_drop hci _) _)
+  · have hne : best.loopLength ≠ 0 := by
+      unfold Match.loopScore at hl
+      omega
+    have hok := hlo hne
+    rw [applyMatch_loop_eq hsrc hl] at happ
+    simp only [Except.ok.injEq, Prod.mk.injEq] at happ
+    rw [← happ.1]
+    exact songCounts_setTrack hc hsrc (countOK_foldedTrack_cap hci hok.lt hok.pos)
+
+/-- every song a run of `Opt.optimize` goes through, the result included (validated or not), keeps
+its loop counts in the domain -/
+theorem optimize_counts (valid : Song → Bool) (hvalid : ∀ s, valid s = true → validAll s = true)
+    (minScore : Int) :
+    ∀ (fuel : Nat) (song : Song) (subId : Int) (acc : List Match) (r : OptResult),
+    SongWF song → FreshInv song subId → validAll song = true → SongCounts song →
+    optimize valid minScore fuel song subId acc = .ok r →
+    subId + ((r.passes.length - acc.length : Nat) : Int) < 32768 → SongCounts r.song := by
+  intro fuel
+  induction fuel with
+  | zero => intro song subId acc r _ _ _ _ h; simp [optimize] at h
+  | succ fuel ih =>
+    intro song subId acc r hwf hfr hval hc h hcnt
+    obtain ⟨ps, hps⟩ := optimize_passes_prefix valid minScore _ _ _ _ _ h
+    unfold optimize at h
+    obtain ⟨m, _, h⟩ := bind_ok h
+    obtain ⟨x, hfb, h⟩ := bind_ok h
+    obtain ⟨s', best, subId'⟩ := x
+    simp only at h
+    have hlen : r.passes.length - acc.length = ps.length := by rw [hps]; simp
+    rw [hlen] at hcnt
+    split at h
+    · simp only [pure, Except.pure, Except.ok.injEq] at h
+      have hps1 : 1 ≤ ps.length := by
+        have : acc ++ ps = acc ++ [best] := by rw [← hps, ← h]
+        have := congrArg List.length this
+        simp only [List.length_append, List.length_cons, List.length_nil] at this
+        omega
+      rw [← h]
+      exact C01_pass_counts hwf hfr hval (by omega) hc hfb
+    · rename_i hvs
+      have hval' : validAll s' = true := hvalid s' (by simpa using hvs)
+      have hps1 : 1 ≤ ps.length := by
+        split at h
+        · obtain ⟨ps', hps'⟩ := optimize_passes_prefix valid minScore _ _ _ _ _ h
+          have : acc ++ ps = acc ++ [best] ++ ps' := by rw [← hps, hps']
+          have := congrArg List.length this
+          simp only [List.length_append, List.length_cons, List.length_nil] at this
+          omega
+        · simp only [pure, Except.pure, Except.ok.injEq] at h
+          have : acc ++ ps = acc ++ [best] := by rw [← hps, ← h]
+          have := congrArg List.length this
+          simp only [List.length_append, List.length_cons, List.length_nil] at this
+          omega
+      obtain ⟨_, hwf', hfr', hid⟩ := pass_is_step hwf hfr hval (by omega) hfb
+      have hc' := C01_pass_counts hwf hfr hval (by omega) hc hfb
+      split at h
+      · exact ih s' subId' (acc ++ [best]) r hwf' hfr' hval' hc' h (by
+          have : r.passes.length - (acc ++ [best]).length = ps.length - 1 := by
+            rw [hps]; simp; omega
+          rw [this]
+          omega)
+      · simp only [pure, Except.pure, Except.ok.injEq] at h
+        rw [← h]
+        exact hc'
+
+/-- **The optimiser keeps a song inside the documented domain of loop counts.**  For every
+well-formed song all of whose tracks validate and all of whose `LOOP_END` counts are in 0..255
+(`[/]<0..255>`), every threshold and fuel: if `Opt.optimize` returns normally (whether or not the
+validator accepted the last pass) and the subroutine ids stay within `int16_t` (`hcnt`, as in
+`C01_optimize_preserves`), every `LOOP_END` of the optimised song — in the original tracks and in the
+extracted subroutines — has a count in 0..255.  This is the statement defect D2 violated. -/
+theorem C01_optimize_counts_le_255 (valid : Song → Bool) (hvalid : ∀ s, valid s = true → validAll s = true)
+    (song : Song) (minScore : Int) (fuel : Nat) (r : OptResult)
+    (hwf : SongWF song) (hsorted : (song.tracks.map (·.1)).Pairwise (· < ·))
+    (hids : ∀ p ∈ song.tracks, p.1 < 32767)
+    (hok : ∀ id, song.track? id ≠ none → okTrack song id) (hc : SongCounts song)
+    (hr : optimize valid minScore fuel song (initialSubId song) [] = .ok r)
+    (hcnt : initialSubId song + (r.passes.length : Int) < 32768) :
+    SongCounts r.song :=
+  optimize_counts valid hvalid minScore fuel song _ [] r hwf
+    (initialSubId_fresh hsorted hids) (validAll_of_ok hwf.nodup hok) hc hr (by simpa using hcnt)
+
 end Ctrmml.C01
 
 /-! ## concrete instances for layers 2–3
@@ -994,7 +1130,7 @@ theorem loopOK_L : LoopOK songL mL bmL := by
 
 example : ∃ S', applyMatch songL mL bmL 15000 = .ok (S', mL, 15000) ∧ StepN songL S' := by
   obtain ⟨S', h1, h2, _⟩ := applyMatch_loop_is_step (subId := 15000) loopOK_L (by decide)
-    (src := [n 1, n 1, n 1, n 1, n 1, n 1]) rfl (by decide) (by decide) (by decide)
+    (src := [n 1, n 1, n 1, n 1, n 1, n 1]) rfl (by decide) (by decide)
   exact ⟨S', h1, h2⟩
 
 /-- the hypotheses of `C01_optimize_preserves` are satisfiable: the run of the optimiser on
@@ -1119,5 +1255,75 @@ example (fuel : Nat) (h : 49 < fuel) : optimize validAll 0 fuel songL (initialSu
     (by decide) (by decide) fuel (by
       have : totalEvents songL = 6 := by decide
       rw [this]; omega)
+
+/-! ### the cap of the loop count (repair of D2) -/
+
+instance (l : List Event) : Decidable (CountOK l) := by unfold CountOK; infer_instance
+instance (S : Song) : Decidable (SongCounts S) := by unfold SongCounts; infer_instance
+
+/-- the neighbourhood of the cap, period 1 and period 2 (`(period, matched length) ↦ folded length,
+count`): 254 further repetitions are the most one fold takes; a remainder counts as one pass -/
+example : [capLoopLength 1 253, capLoopLength 1 254, capLoopLength 1 255, capLoopLength 1 299,
+    capLoopLength 2 507, capLoopLength 2 508, capLoopLength 2 509, capLoopLength 2 1000] =
+    [253, 254, 254, 254, 507, 508, 508, 508] := by decide
+example : [foldCount 1 253, foldCount 1 254, foldCount 2 506, foldCount 2 507, foldCount 2 508] =
+    [254, 255, 254, 255, 255] := by decide
+
+/-- 300 equal notes (the D2 corpus case): the loop branch folds 255 of them into `[c]255`, the other
+45 stay in the track for the next pass -/
+def songC : Song := { tracks := [(0, List.replicate 300 (n 1))] }
+def mC : SAMap := [(0, { eventList := List.replicate 300 0 })]
+def bmC : Match := { trackId := 0, position := 0, loopPosition := 1, loopLength := 299 }
+
+example : okv ((applyMatch songC mC bmC 15000).map fun r => r.1.tracks) =
+    some [(0, lsEv :: n 1 :: leEv 255 :: List.replicate 45 (n 1))] := by decide +kernel
+
+theorem loopOK_C : LoopOK songC mC bmC := by
+  have hf : findMatchLength songC mC 0 0 0 1 true = .ok (299, 299) := by
+    have h : okv (findMatchLength songC mC 0 0 0 1 true) = some (299, 299) := by decide +kernel
+    cases hx : findMatchLength songC mC 0 0 0 1 true with
+    | error e => rw [hx] at h; simp [okv] at h
+    | ok v => rw [hx] at h; simp only [okv, Option.some.injEq] at h; rw [h]
+  refine ⟨by decide, by decide, by decide, ⟨299, hf⟩, ?_⟩
+  intro src hsrc
+  have : src = List.replicate 300 (n 1) := by
+    have h : songC.track? 0 = some (List.replicate 300 (n 1)) := rfl
+    rw [show bmC.trackId = 0 from rfl, h] at hsrc
+    exact (Option.some.inj hsrc).symm
+  subst this
+  decide +kernel
+
+/-- `C01_fold_count_le_255` on that match: the inserted count is 255 -/
+example : ∃ (c : Nat) (t' : List Event), c = 255 ∧
+    applyMatch songC mC bmC 15000 = .ok (setTrack songC 0 t', mC, 15000) ∧ leEv (c : Int) ∈ t' := by
+  obtain ⟨c, t', _, _, hc, happ, hmem, _⟩ := C01_fold_count_le_255 (subId := 15000) loopOK_C (by decide)
+    (src := List.replicate 300 (n 1)) rfl
+  exact ⟨c, t', by rw [hc]; decide, happ, hmem⟩
+
+/-- `applyMatch_loop_is_step` on the capped match: it is a loop fold (`k = 254`, no remainder) -/
+example : ∃ S', applyMatch songC mC bmC 15000 = .ok (S', mC, 15000) ∧ StepN songC S' := by
+  obtain ⟨S', h1, h2, _⟩ := applyMatch_loop_is_step (subId := 15000) loopOK_C (by decide)
+    (src := List.replicate 300 (n 1)) rfl (by decide +kernel) (by decide +kernel)
+  exact ⟨S', h1, h2⟩
+
+/-- the hypotheses of `C01_optimize_counts_le_255` are satisfiable: the run on `songL` -/
+example (r : OptResult) (hr : optimize validAll 0 5 songL (initialSubId songL) [] = .ok r)
+    (hcnt : initialSubId songL + (r.passes.length : Int) < 32768) : SongCounts r.song :=
+  C01_optimize_counts_le_255 validAll (fun _ h => h) songL 0 5 r wfL (by decide) (by decide)
+    (fun id hid => by
+      have : id = 0 := by
+        by_cases h : id = 0
+        · exact h
+        · exfalso; apply hid
+          have hb : (id == 0) = false := by simp [h]
+          simp [Song.track?, songL, List.lookup, hb]
+      subst this
+      exact ⟨_, List.replicate 6 (item (n 1)), rfl, by rfl⟩)
+    (by decide) hr hcnt
+
+/-- `C01_pass_counts` on the pass that folds `songL` -/
+example (s' : Song) (best : Match) (id' : Int) (hfb : findBestMatch songL mL 15000 = .ok (s', best, id')) :
+    SongCounts s' :=
+  C01_pass_counts wfL freshL (by decide) (by decide) (by decide) hfb
 
 end Ctrmml.C01.Ex2
